@@ -61,10 +61,45 @@ def build_history(rng, spool, tier):
     ops = []          # what was asked, in connection order
     t = now
     ver = 0
+    peers = PEERS
+    if rng.random() < 0.12:
+        # a crowd: more users than the daemon keeps dirty marks for; everybody gets a task, the files are written, then
+        # within one checkpoint interval most of them change something - some by giving up their only task - and look
+        # at their queue
+        peers = [1000 + i for i in range(rng.choice([17, 20, 24]))]
+        mine = {}
+        for p in peers:
+            ver += 1
+            uid = "crowd%d@verif" % p
+            mine[p] = uid
+            dt = int(t) + 3600
+            sc.req(p, vcal([vevent(uid, ver, dt, True)]).encode())
+            ops.append({"k": "add", "peer": p, "items": [{"uid": uid, "ver": ver, "dt": dt, "rec": True, "claimed": p}], "t": t})
+            sc.add("dump")
+        t += 61.0
+        sc.add("run %.6f" % t)
+        order = list(peers)
+        rng.shuffle(order)
+        for p in order[:rng.randint(16, len(peers))]:
+            if rng.random() < 0.35:
+                sc.req(p, vcal(["BEGIN:VEVENT\nUID:%s\nSTATUS:CANCELLED\nEND:VEVENT" % mine[p]], "CANCEL").encode())
+                ops.append({"k": "cancel", "peer": p, "uids": [mine[p]], "t": t})
+            else:
+                ver += 1
+                dt = int(t) + 3600
+                sc.req(p, vcal([vevent(mine[p], ver, dt, True)]).encode())
+                ops.append({"k": "add", "peer": p, "items": [{"uid": mine[p], "ver": ver, "dt": dt, "rec": True, "claimed": p}], "t": t})
+            sc.add("dump")
+        if rng.random() < 0.5:
+            t += 61.0
+            sc.add("run %.6f" % t)
+        for p in order:
+            sc.add("get %d /queue" % p)
+            ops.append({"k": "get", "peer": p, "kind": "queue", "q": [], "other": p, "t": t})
     nops = rng.choice([4, 10, 25, 60]) if not big else rng.choice([80, 300])
     for _ in range(nops):
         r = rng.random()
-        peer = rng.choice(PEERS)
+        peer = rng.choice(peers if len(peers) == len(PEERS) else peers[:3])
         if r < 0.45 or (big and r < 0.75):
             evs, items = [], []
             for _ in range(rng.choice([1, 1, 2, 3]) if not big else rng.choice([1, 5, 20])):
